@@ -318,11 +318,12 @@ pub fn cases_for(prop: &str, tier: &str, seed: u64, shard: (usize, usize)) -> (V
         }
         "C14" => {
             let n = budget(tier, 4000, 80000) / shard.1;
+            let family_pool = crate::families::rewrite_source_pool(&mut rng);
             for i in 0..n {
                 let mut si_idx = rng.below(pool.len() - 1);
-                // valid, mutated and grammar-random documents; every 4th: a structured merge case
-                let structured = i % 4 == 3;
-                let source = rng.below(5);
+                // valid, mutated and grammar-random documents; every 4th (and every 8th+1): a structured case
+                let structured = i % 4 == 3 || i % 8 == 1;
+                let source = rng.below(9);
                 if structured {
                     si_idx = pool.iter().position(|s| s.name == match source { 2 => "minimal", 4 => "lonely", _ => "synthetic" }).unwrap();
                 }
@@ -341,7 +342,9 @@ pub fn cases_for(prop: &str, tier: &str, seed: u64, shard: (usize, usize)) -> (V
                             crate::families::subscription_graph_cases_on(&mut rng, 1, tc, "name", "other").pop().unwrap()
                         }
                         // several operations and fragments sharing variables and, now and then, NAMES
-                        _ => crate::families::variable_graph_cases(&mut rng, 3).pop().unwrap(),
+                        3 => crate::families::variable_graph_cases(&mut rng, 3).pop().unwrap(),
+                        // a document of the targeted families of the rule properties
+                        _ => family_pool[rng.below(family_pool.len())].clone(),
                     },
                     0 | 1 => crate::genvalid::VGen::new(rng.fork(), si, 2 + rng.below(3)).doc(),
                     2 => {
@@ -356,6 +359,8 @@ pub fn cases_for(prop: &str, tier: &str, seed: u64, shard: (usize, usize)) -> (V
                     kind = *rng.pick(&["schema-perm-members", "schema-perm-definitions", "perm-selections", "inline-spread"]);
                 } else if structured && source == 3 {
                     kind = *rng.pick(&["rename-fragments", "rename-operations", "rename-variables", "perm-definitions", "perm-variables"]);
+                } else if structured && source >= 5 {
+                    kind = *rng.pick(&["perm-selections", "perm-selections", "perm-arguments", "perm-arguments", "perm-definitions", "perm-variables", "inline-spread", "wrap-inline", "rename-variables", "rename-fragments", "rename-aliases", "reparse"]);
                 } else if structured && rng.pct(60) {
                     // the structured merge cases are about order: permute selections / definitions
                     kind = if rng.pct(70) { "perm-selections" } else { "perm-definitions" };
@@ -771,6 +776,20 @@ pub fn c03_cases(pool: &[SchemaInfo], rng: &mut Rng, tier: &str, shard: (usize, 
             push(&mut cases, "cycle-multi-edge", synth, d.print(), vec!["OverlappingFieldsCanBeMerged"], &mut n);
         }
     }
+    // variable definitions of every kind of type with defaults of every literal kind, on every schema
+    {
+        let mut i = 0usize;
+        for (si_idx, si) in pool.iter().enumerate() {
+            for text in crate::families::variable_default_cases(si) {
+                i += 1;
+                if i % shard.1 != shard.0 || (tier != "thorough" && i % 3 != 0) {
+                    continue;
+                }
+                push(&mut cases, "variable-defaults", si_idx, text.clone(), all.to_vec(), &mut n);
+                push(&mut cases, "variable-defaults", si_idx, text, vec![["ValuesOfCorrectType", "VariablesInAllowedPosition", "VariablesAreInputTypes", "KnownTypeNames"][i % 4]], &mut n);
+            }
+        }
+    }
     // the known stack-overflow witness and relatives
     if shard.0 == 0 {
         for doc in [
@@ -1117,6 +1136,18 @@ pub fn exhaustive_family(prop: &str, tier: &str, rng: &mut Rng, shard: (usize, u
                     continue;
                 }
                 out.push(Case { id: format!("dc{}x{}", shard.0, i), family: "subscription-graphs-decoy".into(), schema: decoy, op: "validate".into(), doc: Some(d.print()), extra: vec![], note: String::new() });
+            }
+        }
+    }
+    if prop == "C07" || prop == "C08" {
+        let mut i = 0usize;
+        for (si_idx, si) in pool.iter().enumerate() {
+            for text in variable_default_cases(si) {
+                i += 1;
+                if i % shard.1 != shard.0 {
+                    continue;
+                }
+                out.push(Case { id: format!("vd{}x{}", shard.0, i), family: "variable-defaults".into(), schema: si_idx, op: "validate".into(), doc: Some(text), extra: vec![], note: String::new() });
             }
         }
     }
